@@ -50,6 +50,19 @@ func runBytea(r *core.Run) {
 		r.Do("C12.bytea.octal.dec " + core.Hex(b))
 		r.Do("C12.bytea.escaped.dec " + core.Hex(b))
 	}
+	// directed: valid multi-byte characters followed by complete and truncated octal escapes (rune index vs byte index)
+	for _, ch := range []string{"é", "€", "😀", "éé", "a€b", ""} {
+		for _, tail := range []string{"\\", "\\1", "\\12", "\\123", "\\12x", "\\\\", "\\1é", "x\\12"} {
+			for _, pre := range []string{"", "z", "\\101"} {
+				b := []byte(pre + ch + tail)
+				r.Begin("bytea-utf8-"+core.Hex(b), true, "stream:boundary", "bytea:utf8-truncated-escape")
+				for _, op := range []string{"C12.bytea.octal.dec ", "C12.bytea.escaped.dec "} {
+					got := r.Do(op + core.Hex(b))
+					r.Check(got != core.Panic, "bytea-decode-panic", fmt.Sprintf("%s panics on %q", op, b))
+				}
+			}
+		}
+	}
 	// DataRows through the real decoder/encoder subscribers with no column settings: relay identity
 	for i := 0; i < r.N(400, 15000); i++ {
 		row := randRow(rd, false)
